@@ -257,7 +257,19 @@ def F13():
         "ingest machine shown in %d rows for a 4-step observation; intervals on m0 %s; overlaps %s" % (held, iv, overlap)
 
 
-ALL = ["F1", "F2", "F3", "F4", "F5", "F6a", "F6b", "F7", "F8", "F9", "F10", "F12", "F13"]
+def F14():
+    """C05 (was K2): two observations admitted in the same telescope pass were both checked against the same
+    list of available machines; the second provision_ingest_resources raised RuntimeError('Failed to check
+    system capacity ...') although the configuration is feasible."""
+    wf = {"nodes": [{"id": 0, "comp": 10}], "edges": []}
+    spec = base([ob("a", 0, 2, rate=1, ing=2, wf=wf), ob("b", 0, 2, rate=1, ing=2, wf=wf)],
+                machines=[{"id": "m%d" % i, "flops": 10, "bw": 2} for i in range(3)], max_ingest=4)
+    rec = runsim.run_spec(spec, max_steps=200)
+    return rec["exception"] is None and not rec["nonterminated"], \
+        "exc=%s end=%s" % ((rec["exception"] or {}).get("type"), rec["end"])
+
+
+ALL = ["F1", "F2", "F3", "F4", "F5", "F6a", "F6b", "F7", "F8", "F9", "F10", "F12", "F13", "F14"]
 
 if __name__ == "__main__":
     if "--f9-child" in sys.argv:
